@@ -45,6 +45,8 @@ type Step struct {
 	// Dies (resume, sresume) > 0: the resuming client vanishes unnoticed while it is being served: the server's
 	// write number Dies to that exchange is the first to fail (1: the very first replayed event).
 	Dies int `json:"dies,omitempty"`
+	// Big (note, snote): the message is larger than the whole budget of a small store (Script.StoreBytes)
+	Big bool `json:"big,omitempty"`
 }
 
 type Script struct {
@@ -55,6 +57,9 @@ type Script struct {
 	Steps   []Step `json:"steps"`
 	// PurgeDuringLastReplay: while the very last resume of the case is being replayed, the store is purged.
 	PurgeDuringLastReplay bool `json:"purge_during_last_replay,omitempty"`
+	// StoreBytes > 0: the event store keeps this byte budget for the whole case (a store that is short of
+	// memory): resumes may be refused because their events are gone, accepted ones must be exact.
+	StoreBytes int `json:"store_bytes,omitempty"`
 }
 
 func genScript(rt *rapid.T, race bool) Script {
@@ -63,6 +68,9 @@ func genScript(rt *rapid.T, race bool) Script {
 		s.Yields = rapid.SampledFrom([]int{0, 2000, 2000, 5000}).Draw(rt, "yields")
 	}
 	s.PurgeDuringLastReplay = rapid.IntRange(0, 2).Draw(rt, "purge_last") == 0
+	if rapid.IntRange(0, 4).Draw(rt, "small_store") == 0 {
+		s.StoreBytes = rapid.SampledFrom([]int{300, 700, 2000}).Draw(rt, "store_bytes")
+	}
 	n := rapid.IntRange(2, 30).Draw(rt, "n")
 	posts := 0
 	for i := 0; i < n; i++ {
@@ -80,6 +88,9 @@ func genScript(rt *rapid.T, race bool) Script {
 		if (st.Kind == "resume" || st.Kind == "sresume") && rapid.IntRange(0, 4).Draw(rt, "dies") == 0 {
 			st.Dies = rapid.IntRange(1, 3).Draw(rt, "dies_at")
 		}
+		if (st.Kind == "note" || st.Kind == "snote") && s.StoreBytes > 0 {
+			st.Big = rapid.IntRange(0, 3).Draw(rt, "big") == 0
+		}
 		if race {
 			st.NoWait = rapid.IntRange(0, 3).Draw(rt, "nowait") == 0
 		}
@@ -92,7 +103,7 @@ func genScript(rt *rapid.T, race bool) Script {
 			}
 			for k := rapid.IntRange(1, 3).Draw(rt, "detached_writes"); k > 0; k-- {
 				// in the race variant the last detached write may overlap the resume that follows
-				s.Steps = append(s.Steps, Step{Kind: w, S: st.S, NoWait: race && k == 1 && rapid.IntRange(0, 3).Draw(rt, "write_races_resume") > 0})
+				s.Steps = append(s.Steps, Step{Kind: w, S: st.S, Big: s.StoreBytes > 0 && rapid.IntRange(0, 3).Draw(rt, "big_detached") == 0, NoWait: race && k == 1 && rapid.IntRange(0, 3).Draw(rt, "write_races_resume") > 0})
 			}
 			if st.Kind == "cut" && rapid.IntRange(0, 3).Draw(rt, "finish_detached") == 0 {
 				s.Steps = append(s.Steps, Step{Kind: "finish", S: st.S})
@@ -239,6 +250,7 @@ func (s *streamRec) attached() *exch {
 
 type cmd struct {
 	finish bool
+	big    int // pad the message to at least this many bytes
 	// closeResume: the handler closes its SSE stream (RequestExtra.CloseSSEStream) and, on the same
 	// goroutine and at once, a client resumes the stream from lastID (a prompt reconnection).
 	closeResume bool
@@ -288,7 +300,11 @@ func runInBubble(s Script) (res vt.Result) {
 			}
 			n++
 			// written with the request's context: routed to this request's stream
-			req.Session.NotifyProgress(ctx, &mcp.ProgressNotificationParams{ProgressToken: fmt.Sprintf("k%d", in.K), Progress: float64(n), Message: fmt.Sprintf("k%d-n%d", in.K, n)})
+			msg := fmt.Sprintf("k%d-n%d", in.K, n)
+			if c.big > 0 {
+				msg += strings.Repeat(".", c.big)
+			}
+			req.Session.NotifyProgress(ctx, &mcp.ProgressNotificationParams{ProgressToken: fmt.Sprintf("k%d", in.K), Progress: float64(n), Message: msg})
 		}
 		return &mcp.CallToolResult{Content: []mcp.Content{&mcp.TextContent{Text: fmt.Sprintf("done-%d", in.K)}}}, nil, nil
 	})
@@ -489,7 +505,11 @@ func runInBubble(s Script) (res vt.Result) {
 
 	prevNoWait := false
 	hcloses := 0
-	purged := false
+	purged := s.StoreBytes > 0
+	if s.StoreBytes > 0 {
+		store.inner.SetMaxBytes(s.StoreBytes)
+		res.Class("store_short_of_memory")
+	}
 	for i, st := range s.Steps {
 		racing := st.NoWait || prevNoWait // attachment state is not settled: 200 and 409 are both legitimate
 		prevNoWait = st.NoWait
@@ -529,8 +549,14 @@ func runInBubble(s Script) (res vt.Result) {
 				desc.WriteString("F")
 			} else {
 				sr.notes++
-				cmdCh(sr.k) <- cmd{}
-				desc.WriteString("n")
+				if st.Big && s.StoreBytes > 0 {
+					cmdCh(sr.k) <- cmd{big: s.StoreBytes + 50}
+					res.Class("message_larger_than_the_store_budget")
+					desc.WriteString("N")
+				} else {
+					cmdCh(sr.k) <- cmd{}
+					desc.WriteString("n")
+				}
 			}
 		case "cut":
 			if len(streams) == 0 {
@@ -553,7 +579,11 @@ func runInBubble(s Script) (res vt.Result) {
 			// back. From now on a resume may be refused (its events are gone); one that is accepted must
 			// still deliver the right messages under the right ids.
 			store.inner.SetMaxBytes([]int{1, 120, 400, 1500}[st.I%4])
-			store.inner.SetMaxBytes(10 << 20)
+			if s.StoreBytes > 0 {
+				store.inner.SetMaxBytes(s.StoreBytes)
+			} else {
+				store.inner.SetMaxBytes(10 << 20)
+			}
 			purged = true
 			desc.WriteString("U")
 		case "hclose":
@@ -701,7 +731,12 @@ func runInBubble(s Script) (res vt.Result) {
 			if standalone.attached() == nil {
 				detachedWrites[standalone] = true
 			}
-			ss.NotifyProgress(context.Background(), &mcp.ProgressNotificationParams{ProgressToken: "standalone", Progress: float64(snotes), Message: fmt.Sprintf("s-n%d", snotes)})
+			smsg := fmt.Sprintf("s-n%d", snotes)
+			if st.Big && s.StoreBytes > 0 {
+				smsg += strings.Repeat(".", s.StoreBytes+50)
+				res.Class("message_larger_than_the_store_budget")
+			}
+			ss.NotifyProgress(context.Background(), &mcp.ProgressNotificationParams{ProgressToken: "standalone", Progress: float64(snotes), Message: smsg})
 			desc.WriteString("m")
 		case "scut":
 			if e := standalone.attached(); e != nil {
